@@ -169,26 +169,79 @@ def run(chk, F, G_):
     names = {c.get("name") for c in calls(ve["body"])}
     chk.ob(rid, "edge|guard-and-update", {"visitGuard", "visitAssignment"} <= names,
            "visitEdge does not inspect both guard and update", "%s:%s" % (ve["file"], ve["line"]))
-    # channels in every scope
+    # scope coverage of the declaration tests (clock initialisers, channels).  The tests may live in any method; what
+    # matters is *for which scopes* the method runs: DocumentVisitor overrides that Document::accept dispatches for the
+    # global declarations and for the locals of every (instantiated) template, or an explicit call with a scope
     ctor = F.fn(FC + "::FeatureChecker")
-    vf_sites = []
-    for fn in F.functions.values():
-        if fn.get("cls") == FC:
-            for c in calls(fn["body"], "visitFrame"):
-                vf_sites.append((fn["name"], short(c["args"][0]) if c.get("args") else ""))
-    glob = any("get_globals" in a for _, a in vf_sites)
-    templ = any(("templ" in a or "frame" in a) and "get_globals" not in a for _, a in vf_sites)
-    chk.ob(rid, "channels|global-scope", glob, "visitFrame is not applied to the global declarations",
+    DISPATCHED = ("visitVariable", "visitFunction", "visitLocation", "visitEdge", "visitInstance", "visitProcess",
+                  "visitTemplateBefore", "visitTemplateAfter")
+
+    def scopes_of(fn, seen=()):
+        """{'global', 'template'}: scopes whose declarations method fn is applied to."""
+        if fn["name"] in DISPATCHED:
+            return {"global", "template"}       # Document::accept calls these for every scope it visits
+        out = set()
+        for g in F.functions.values():
+            if g.get("cls") != FC or g["q"] in seen:
+                continue
+            for c in calls(g["body"], fn["name"]):
+                a = short(c["args"][0]) if c.get("args") else ""
+                if "get_globals" in a:
+                    out.add("global")
+                elif g["name"] in ("visitTemplateBefore", "visitTemplateAfter") or "templ" in a:
+                    out.add("template")
+                else:
+                    out |= scopes_of(g, seen + (fn["q"],))
+        return out
+
+    def methods_with(pred):
+        """methods with a test whose path condition (own condition and the enclosing ones) satisfies pred"""
+        out = []
+
+        def visit(n, conds):
+            if isinstance(n, list):
+                return any(visit(x, conds) for x in n)
+            if not isinstance(n, dict):
+                return False
+            if n.get("k") == "if":
+                c = conds + [short(n["c"])]
+                if pred(" && ".join(c)):
+                    return True
+                return visit(n.get("then"), c) or visit(n.get("else"), conds + ["!(" + short(n["c"]) + ")"])
+            return any(visit(v, conds) for v in n.values() if isinstance(v, (dict, list)))
+        for fn in F.functions.values():
+            if fn.get("cls") == FC and visit(fn["body"], []):
+                out.append(fn)
+        return out
+    chan = methods_with(lambda c: "is_channel" in c and "BROADCAST" in c)
+    chk.ob(rid, "channels|non-broadcast", bool(chan), "FeatureChecker never tests channels for the broadcast prefix",
            "%s:%s" % (ctor["file"], ctor["line"]))
-    chk.ob(rid, "channels|template-scope", templ,
+    cs = set()
+    for fn in chan:
+        cs |= scopes_of(fn)
+    chk.ob(rid, "channels|global-scope", "global" in cs, "the channel test is not applied to the global declarations",
+           "%s:%s" % (ctor["file"], ctor["line"]))
+    chk.ob(rid, "channels|template-scope", "template" in cs,
            "FeatureChecker visits channel declarations of the global scope only: a non-broadcast channel declared "
            "locally in an instantiated template leaves stochastic analysis reported as supported",
            "%s:%s" % (ctor["file"], ctor["line"]))
-    vfr = F.fn(FC + "::visitFrame")
-    okfr = any(n.get("k") == "if" and "is_channel" in short(n["c"]) and "BROADCAST" in short(n["c"])
-               for n in walk(vfr["body"]))
-    chk.ob(rid, "channels|non-broadcast", okfr, "visitFrame does not test channels for the broadcast prefix",
-           "%s:%s" % (vfr["file"], vfr["line"]))
+    clk = methods_with(lambda c: "is_clock" in c and "uses_fp" in c)
+    chk.ob(rid, "variables|clock-initialiser", bool(clk), "FeatureChecker never tests clock initialisers for floating point",
+           "%s:%s" % (ctor["file"], ctor["line"]))
+    ks = set()
+    for fn in clk:
+        ks |= scopes_of(fn)
+    chk.ob(rid, "variables|clock-initialiser|global-scope", "global" in ks,
+           "the clock-initialiser test is not applied to the global declarations", "%s:%s" % (ctor["file"], ctor["line"]))
+    chk.ob(rid, "variables|clock-initialiser|template-scope", "template" in ks,
+           "the clock-initialiser test runs for the global declarations only: `clock c = 2.5;` declared locally in an "
+           "instantiated template leaves symbolic analysis reported as supported",
+           "%s:%s" % (clk[0]["file"] if clk else ctor["file"], clk[0]["line"] if clk else ctor["line"]))
+    # Document::accept really dispatches visitVariable for template locals
+    vt_ = [f for f in F.functions.values() if f["q"].endswith("visitTemplate") and (f.get("file") or "").endswith("document.cpp")]
+    disp = any(any(c.get("name") in ("visit", "visitVariable") for c in calls(f["body"])) for f in vt_)
+    chk.ob(rid, "variables|dispatch", disp, "Document::accept does not visit the variables of templates",
+           "src/document.cpp")
     # document flags
     flags = {}
     for n in walk(ctor["body"]):
@@ -211,10 +264,6 @@ def run(chk, F, G_):
     ok = len(rets) == 1 and (rets[0].get("e") or {}).get("k") == "member" and rets[0]["e"].get("name") == "is_instantiated"
     chk.ob(rid, "templates|is_instantiated", ok, "visitTemplateBefore is not `return templ.is_instantiated`",
            "%s:%s" % (vt["file"], vt["line"]))
-    vv = F.fn(FC + "::visitVariable")
-    okv = any(n.get("k") == "if" and "is_clock" in short(n["c"]) and "uses_fp" in short(n["c"]) for n in walk(vv["body"]))
-    chk.ob(rid, "variables|clock-initialiser", okv, "visitVariable does not test clock initialisers for floating point",
-           "%s:%s" % (vv["file"], vv["line"]))
     # the flags only ever go from true to false (order independence)
     sets_true = []
     for fn in F.functions.values():
